@@ -6,11 +6,48 @@ Import ListNotations.
 Inductive case :=
 | ToShort (u : Z)
 | FromShort (a : pyarg)
-| FromStr (std : option Z) (s : list Z).
+| FromStr (std : option Z) (s : list Z)
+| Seq (l : list call)           (* several calls, in this order, in one process *)
+| SeqCmp (l : list call) (seen : list outcome).
+  (* a long history: what the implementation returned is passed in and compared
+     here (printing thousands of numbers overflows coqc's stack) *)
+
+Definition sx_outcome (o : outcome) : sx :=
+  match o with
+  | OStr s => sx_str s
+  | ORes r => sx_res SZ r
+  end.
+
+Fixpoint zlist_eqb (a b : list Z) : bool :=
+  match a, b with
+  | [], [] => true
+  | x :: a', y :: b' => Z.eqb x y && zlist_eqb a' b'
+  | _, _ => false
+  end.
+
+Definition outcome_eqb (a b : outcome) : bool :=
+  match a, b with
+  | OStr s, OStr s' => zlist_eqb s s'
+  | ORes (Ok n), ORes (Ok m) => Z.eqb n m
+  | ORes (Err e), ORes (Err e') => err_eqb e e'
+  | _, _ => false
+  end.
+
+(* (1) when the lists agree, else (0 index model's-outcome-there) *)
+Fixpoint first_diff (i : Z) (model seen : list outcome) : sx :=
+  match model, seen with
+  | [], [] => SL [SZ 1]
+  | m :: model', s :: seen' =>
+      if outcome_eqb m s then first_diff (i + 1) model' seen' else SL [SZ 0; SZ i; sx_outcome m]
+  | m :: _, [] => SL [SZ 0; SZ i; sx_outcome m]
+  | [], _ :: _ => SL [SZ 0; SZ i]
+  end.
 
 Definition run (c : case) : sx :=
   match c with
   | ToShort u => sx_str (uuid_to_short_str u)
   | FromShort a => sx_res SZ (uuid_from_short_str a)
   | FromStr std s => sx_res SZ (uuid_from_str std s)
+  | Seq l => sx_list sx_outcome (eval_seq l)
+  | SeqCmp l seen => first_diff 0 (eval_seq l) seen
   end.
